@@ -24,7 +24,7 @@ DEF_FRAGMENTS = [
     '\\newcommand{\\zzd}{\\zza{q}}', '\\newcommand{\\zze}[2]{#2#1}', '\\newtheorem{zzthm}{Zzthm}',
     '\\newcommand*{\\zzf}[3][]{#3#1}', '\\def\\zzg{G}', '\\renewcommand{\\textbf}[1]{#1}',
     '\\newcommand{\\zzh}[1]{\\footnote{#1}}', '\\def\\zzi[#1]{#1}',
-    '\\newcommand{\\zzv}{\\verb|abcdefgh|}', '\\newcommand{\\zzw}{\\begin{verbatim}abc def\\end{verbatim}}',
+    '\\newcommand{\\zzs}{   \n  }', '\\newcommand{\\zzs}{a \n \n  b}', '\\newcommand{\\zzv}{\\verb|abcdefgh|}', '\\newcommand{\\zzw}{\\begin{verbatim}abc def\\end{verbatim}}',
     '\\newacronym{a}{b}{\u00df}', '\\newglossaryentry{g}{name=n,description={\ufb01x}}', '\\newacronym{a}{b}{\u0390}', '\\newglossaryentry{g}{description={\ufb03}}', '\\newacronym{a}{b}{\u0390 x}',
 ]
 DEFINERS = ('\\newcommand', '\\renewcommand', '\\def')
@@ -70,7 +70,7 @@ def vocabulary():
         _voc = (names + ['\\begin{%s}' % e for e in envs] + ['\\end{%s}' % e for e in envs]
                 + DEF_FRAGMENTS
                 + ['\\begin', '\\end', '\\item', '\\item[', '\\verb', '\\verb|', '\\zz', '\\zza', '\\zzb', '\\zzc',
-                   '\\zzd', '\\zze', '\\zzf', '\\zzh', '\\zzi', '\\zzv', '\\zzw', '\u00df', '\ufb01', '\u0390', '\\begin{zzthm}', '\\end{zzthm}', '\\begin{zzenv}', '\\end{zzenv}',
+                   '\\zzd', '\\zze', '\\zzf', '\\zzh', '\\zzi', '\\zzv', '\\zzw', '\\zzs', '\u00df', '\ufb01', '\u0390', '\\begin{zzthm}', '\\end{zzthm}', '\\begin{zzenv}', '\\end{zzenv}',
                    '{', '}', '[', ']', '$', '$$', '\\(', '\\)', '\\[', '\\]', '{', '}', '{', '}', '[', ']',
                    '#', '#1', '#2', '#9', '&', '\\\\', '%', '%x\n', '%%% LT-SKIP-BEGIN\n', '%%% LT-SKIP-END\n',
                    '~', '_', '^', '*', ' ', ' ', '\n', '\n\n', 'a', 'b', 'Word', '.', ',', '1', '"', '"a', '"`', "\\'",
@@ -119,7 +119,7 @@ def shapes_for(head, args, rnd=None, limit=None):
             yield head + ''.join(combo) + rnd.choice(FOLLOW)
 
 
-KV_ITEMS = ['k', 'k=', 'k=v', 'k={v}', 'k={v', 'k=}', 'k={a,b}', ',', ' ', '=', '{', '}', 'description={D d}',
+KV_ITEMS = ['description', 'text', 'k', 'k=', 'k=v', 'k={v}', 'k={v', 'k=}', 'k={a,b}', ',', ' ', '=', '{', '}', 'description={D d}',
             'text=\\zz', 'german', 'poorman', 'k=[', ']']
 KV_HEADS = [('\\usepackage[', ']{babel} a'), ('\\usepackage[', ']{cleveref}'), ('\\documentclass[', ']{article}'),
             ('\\newglossaryentry{lab}{', '} a'), ('\\gls@defglossaryentry{lab}{', '}\\gls{lab}'), ('\\KOMAoptions{', '}'),
@@ -143,7 +143,7 @@ def keyval_shapes(rnd, full3, sample3=400):
 DEF_PARAM = ['#1', '#2', '#3', '[', ']', '(', ')', ',', 'x', ' ', '#', '#1', '#2']
 DEF_BODY = ['#1', '#2', '#3', '#4', '#9', 'x', '#', '\\zza{a}', '{', '}', ' ', '##1', '$', '\\footnote{#1}', '\\textbf{#2}']
 DEF_USE = ['', '{a}{b}', '[a]', '(a,b)', ' a b c', '{a', '[a]{b}{c}', ' ', '\\zza', '}']   # never \\zzq itself: self-application loops in TeX too
-NC_N = ['', '[0]', '[1]', '[2]', '[3]', '[9]', '[10]', '[x]', '[-1]', '[]', '[ 2 ]']
+NC_N = ['', '[0]', '[1]', '[2]', '[3]', '[9]', '[10]', '[x]', '[-1]', '[]', '[ 2 ]', '[999999999999]', '[99999]']
 NC_DEF = ['', '', '[d]', '[]', '[#1]', '[{]}]']
 
 
